@@ -103,6 +103,48 @@ def r03_c(prog: Program, chk: Check) -> None:
         )
 
 
+# ------------------------------------------------------------------- R03.e
+def r03_e(prog: Program, chk: Check) -> None:
+    from . import assign_model as amod
+
+    chk.rule(
+        "R03.e",
+        "assignability of a concrete object as a finite model: KnownValue / TypedValue / MultiValuedValue / AnyValue / Value.can_assign and TypeObject (__post_init__ with the real "
+        "MRO, can_assign, is_assignable_to_type, is_instance) are interpreted from their AST with real runtime objects and classes as payloads: for each of 12 objects (bools, ints, "
+        "a float, a complex, strings, None, enum members) and each type of the domain (8 classes, literals, unions, a union of 11 members taking the known-literal fast path, Never) "
+        "the object is accepted exactly when it is a member (isinstance, with int -> float -> complex promotion; literals type-strict)",
+        floor=2,
+    )
+    am = amod.AssignModel(prog)
+    U = amod.UNIVERSE
+    lits = [am.known(o) for o in U]
+    typs = [am.typed(t) for t in amod.TYPES]
+    unions = [am.union([am.typed(a), am.typed(b)]) for a, b in ((int, str), (bool, str), (float, type(None)), (complex, amod.Color))] + [am.union([am.known(1), am.known("a")]), am.union([am.known(True), am.typed(str)])]
+    big = am.with_known_subvals(am.union([am.known(i) for i in range(9)] + [am.known("a"), am.typed(str)]))
+    big2 = am.with_known_subvals(am.union([am.known(i) for i in range(12)]))
+    targets = [am.never] + lits + typs + unions + [big, big2]
+    accepted_nonmember, rejected_member, crashes = [], [], []
+    n = 0
+    for T in targets:
+        mt = amod.members(T)
+        for i, o in enumerate(U):
+            n += 1
+            r = am.can_assign(T, am.known(o))
+            d = {"type": amod.show(T), "object": repr(o)}
+            if isinstance(r, tuple):
+                crashes.append({**d, "error": r[1]})
+            elif r and i not in mt:
+                accepted_nonmember.append(d)
+            elif not r and i in mt:
+                rejected_member.append(d)
+    chk.model_evaluations += n
+    chk.analysed["assign_model_objects"] = {"checks": n}
+    site = prog.site("value", prog.find_method("TypedValue", "can_assign")[1])  # type: ignore[index]
+    chk.ob("R03.e", "value::assignability-model::object-accepted-only-if-member", not accepted_nonmember, site, f"{n} (type, object) pairs, {len(accepted_nonmember)} non-members accepted" + (f"; first: {accepted_nonmember[0]}" if accepted_nonmember else ""), witness=accepted_nonmember[:5])
+    chk.ob("R03.e", "value::assignability-model::member-object-accepted", not rejected_member, site, f"{n} (type, object) pairs, {len(rejected_member)} members rejected" + (f"; first: {rejected_member[0]}" if rejected_member else ""), witness=rejected_member[:5])
+    chk.ob("R03.e", "value::assignability-model::no-crash", not crashes, site, f"{len(crashes)} crashes" + (f"; first: {crashes[0]}" if crashes else ""), witness=crashes[:3])
+
+
 def run(prog: Program, chk: Check) -> None:
     from .c04 import early_accept_rule
 
@@ -110,3 +152,4 @@ def run(prog: Program, chk: Check) -> None:
     guard(chk, r03_a, prog, chk)
     guard(chk, r03_b, prog, chk)
     guard(chk, r03_c, prog, chk)
+    guard(chk, r03_e, prog, chk)
